@@ -257,7 +257,7 @@ PROPS = {
     "C05": {
         "families": [("handles", 1000, 25000), ("mailbox", 200, 6000), ("timers", 200, 6000), ("registry", 300, 8000), ("children", 200, 6000)],
         "monitors": ["C03"],
-        "theorems": ["C05_strong_counted_weak_not", "C05_drop_gives_back", "C05_upgrade_iff_strong_reference", "C05_last_drop_drains_then_stops"],
+        "theorems": ["C05_strong_counted_weak_not", "C05_drop_gives_back", "C05_upgrade_iff_strong_reference", "C05_last_drop_drains_then_stops", "C05_accounting_invariant", "C05_strong_handle_keeps_alive", "C05_no_exit_while_strongly_held", "C05_registry_keeps_alive"],
         "nontrivial": nt_c05,
         "rule": "cases generated from (family, VERIF_SEED, index): clone / downgrade / upgrade / convert between all seven handle kinds, moves between client tasks, drops in any order interleaved with submissions, timers and registry entries and child lists holding references; non-trivial = handles of at least two kinds were created, one was dropped, and an upgrade was attempted or the actor ended; distinct = distinct case JSON",
         "assumptions": ["broker subscriptions are covered by C09's family, not here"],
@@ -265,7 +265,7 @@ PROPS = {
     "C15": {
         "families": [("handles", 1000, 25000), ("timers", 300, 8000), ("restart", 200, 6000)],
         "monitors": ["C03"],
-        "theorems": ["C15_every_strong_kind_holds_the_waiting_closure", "C15_context_ops_succeed_while_held", "C15_timers_fire_while_held", "C15_weak_handles_upgrade_while_held"],
+        "theorems": ["C15_every_strong_kind_holds_the_waiting_closure", "C15_context_ops_succeed_while_held", "C15_timers_fire_while_held", "C15_weak_handles_upgrade_while_held", "C15_any_strong_handle_suffices"],
         "nontrivial": nt_c15,
         "rule": "cases generated from (family, VERIF_SEED, index): conversion / drop programs that leave any combination of Addr, OwningAddr, Sender, Caller alive, with Context::stop / restart from handlers, timers of all kinds and weak upgrades; non-trivial = a Sender or Caller existed, some handle was dropped, and a context operation, a tick or an upgrade was observed; distinct = distinct case JSON",
         "assumptions": ["'conversions never change which actor is addressed' is checked on the implementation side: the harness derives the target of a converted handle from the library (context id of the handle) and the search acceptor compares it with the source handle's target"],
@@ -354,17 +354,19 @@ MANIFEST_TEXT = {
         "design_ref": "DESIGN.md section 6 C08",
     },
     "C05": {
-        "text": "Theorems (Coq, one-step, every state): C05_strong_counted_weak_not (every strong kind is counted on the waiting closure, weak kinds on nothing), C05_drop_gives_back, C05_upgrade_iff_strong_reference, C05_last_drop_drains_then_stops (the closed-mailbox exit is taken only with no reference left and an empty queue). "
-                "[partial] the accounting invariant over all reachable states (count >= number of strong handles, so that an existing strong handle implies 'alive') is not proved: every upgrade answer, every context-stop answer, every timer give-up and every closed-mailbox exit of the implementation is compared with the model's counts by correspondence, and the search acceptor keeps its own per-actor count of strong handles.",
+        "text": "Theorems (Coq): C05_accounting_invariant (for every trace the model accepts from its initial state there is an assignment of references to holders under which the count of references to each actor's waiting closure covers every strong handle in the table, every client operation holding a transient reference, every parked timer and the registry) with its consequences for every reachable state: "
+                "C05_strong_handle_keeps_alive (an actor any strong handle points to has a non-zero count: weak handles upgrade, the mailbox is not closed), C05_no_exit_while_strongly_held (when an actor nobody stopped takes the closed-mailbox exit every handle left is weak), C05_registry_keeps_alive; "
+                "and one-step theorems: C05_strong_counted_weak_not, C05_drop_gives_back, C05_upgrade_iff_strong_reference, C05_last_drop_drains_then_stops (the closed-mailbox exit needs an empty queue: everything accepted was handled). Broker subscriptions are C09 (the table holds no reference).",
         "note": COMMON_NOTE,
-        "technique": "Rocq/Coq proof (one-step theorems over all states) over an executable model with explicit reference counts; correspondence by differential run of model and implementation",
+        "technique": "Rocq/Coq proof (invariant over all reachable states by induction over the trace, with a ghost assignment of references to holders; one-step theorems) over an executable model with explicit reference counts; correspondence by differential run of model and implementation",
         "design_ref": "DESIGN.md section 6 C05",
     },
     "C15": {
-        "text": "Theorems (Coq, one-step, every state): C15_every_strong_kind_holds_the_waiting_closure, C15_context_ops_succeed_while_held, C15_timers_fire_while_held, C15_weak_handles_upgrade_while_held: stop/restart from the context, ticks and weak upgrades are all decided by the one count every strong kind contributes to. "
-                "[partial] as for C05 the accounting invariant over reachable states is validated by correspondence, not proved; identity preservation of conversions is checked by the search acceptor on implementation traces.",
+        "text": "Theorems (Coq): C15_any_strong_handle_suffices (every reachable state: whatever the kind of a strong handle that still exists, the addressed actor's count is not zero, so weak handles upgrade, Context::stop / restart find their closure and the mailbox stays open for its timers; from the accounting invariant of C05), "
+                "C15_every_strong_kind_holds_the_waiting_closure, C15_context_ops_succeed_while_held, C15_timers_fire_while_held, C15_weak_handles_upgrade_while_held (one-step: these three behaviours are decided by that one count). "
+                "[partial] identity preservation of conversions is checked by the search acceptor on implementation traces (the harness reads the target of a converted handle from the library).",
         "note": COMMON_NOTE,
-        "technique": "Rocq/Coq proof (one-step theorems over all states) over an executable model with explicit reference counts; correspondence by differential run of model and implementation",
+        "technique": "Rocq/Coq proof (invariant over all reachable states + one-step theorems) over an executable model with explicit reference counts; correspondence by differential run of model and implementation",
         "design_ref": "DESIGN.md section 6 C15",
     },
     "C16": {
